@@ -34,18 +34,19 @@ def strip_comments(src):
     return re.sub(r'--.*', '', src)
 
 
-def source_audit(mod):
-    """grep the Lean sources a property depends on for forbidden constructs (comments removed)"""
+def source_audit(pid):
+    """grep the Lean sources a property depends on (the whole model, all helper lemmas, its own
+    Props file) for forbidden constructs (comments removed)"""
     hits = []
-    roots = [os.path.join(LEAN_DIR, d) for d in ('SynapModel', 'Proofs', 'Props')]
-    for root in roots:
+    files = [os.path.join(LEAN_DIR, 'Props', f'{pid}.lean'), os.path.join(LEAN_DIR, 'Driver.lean')]
+    for root in (os.path.join(LEAN_DIR, d) for d in ('SynapModel', 'Proofs')):
         for dp, _, fs in os.walk(root):
-            for f in fs:
-                if f.endswith('.lean'):
-                    p = os.path.join(dp, f)
-                    for m in FORBIDDEN.finditer(strip_comments(open(p).read())):
-                        hits.append(f'{os.path.relpath(p, LEAN_DIR)}: {m.group(0).strip()}')
-    return hits
+            files += [os.path.join(dp, f) for f in fs if f.endswith('.lean')]
+    for p in files:
+        if os.path.exists(p):
+            for m in FORBIDDEN.finditer(strip_comments(open(p).read())):
+                hits.append(f'{os.path.relpath(p, LEAN_DIR)}: {m.group(0).strip()}')
+    return sorted(set(hits))
 
 
 def axiom_audit(pid):
@@ -132,7 +133,7 @@ def run_check(pid, tier, seed):
             broken.append({'kind': 'proof', 'what': 'axiom audit did not complete', 'detail': aout[-500:]})
         for name, ax in bad:
             broken.append({'kind': 'proof', 'what': f'theorem {name} depends on non-standard axioms {ax}'})
-        hits = source_audit(mod)
+        hits = source_audit(pid)
         for h in hits:
             broken.append({'kind': 'proof', 'what': f'forbidden construct in Lean sources: {h}'})
     required = set(getattr(mod, 'REQUIRED_THEOREMS', []))
